@@ -37,13 +37,23 @@ def render_topology(case):
                            'con_in': _opt(e['ci']), 'con_out': _opt(e['co'])}
             if e.get('ai', 0) not in (0, NONE):
                 d['params']['att_in'] = e['ai'] / UDB
-            if e.get('o') == 'pmd':                            # user PMD coefficient (library SSMF: 1.265e-15)
+            o = e.get('o')
+            if o == 'pmd':                                     # user PMD coefficient (library SSMF: 1.265e-15)
                 d['params']['pmd_coef'] = 3e-15
+            elif o == 'lumped':                                # a lumped loss in the middle of the fibre
+                d['params']['lumped_losses'] = [{'position': e['l'] / 2000, 'loss': 1.5}]
+            elif o == 'dispfreq':                              # chromatic dispersion given per frequency
+                d['params']['dispersion_per_frequency'] = {'value': [1.6e-05, 1.67e-05, 1.75e-05],
+                                                           'frequency': [191e12, 193.5e12, 196.5e12]}
+            elif o == 'disp':                                  # dispersion / effective area other than the library type
+                d['params'].update(dispersion=2.0e-05, effective_area=70e-12)
             if e.get('ct'):                                    # loss coefficient given per frequency (MHz, mdB/km)
                 d['params']['loss_coef'] = {'value': [v / 1000 for _, v in e['ct']],
                                             'frequency': [f * 1e6 for f, _ in e['ct']]}
             if t == 'RamanFiber':
                 d['operational'] = copy.deepcopy(RAMAN_OPERATIONAL)
+        elif t == 'Roadm' and e.get('o') == 'impair':           # element-level impairment parameters of a ROADM
+            d['params'] = {'add_drop_osnr': 30, 'pmd': 3e-12, 'pdl': 0.5}
         elif t == 'Fused':
             d['params'] = {'loss': e['lo'] / UDB}
         elif t == 'Edfa':
@@ -75,22 +85,47 @@ def _base_eqpt():
 _EQ_CACHE = {}
 
 
-def equipment_for(s):
-    """Span settings of a case -> equipment dict built from gnpy/example-data/eqpt_config.json with overrides"""
-    band = tuple(s.get('siBand') or ())
-    key = (s['padding'], s['eol'], s['maxLen'], s['powerMode'], s['conIn'], s['conOut'], band)
-    if key not in _EQ_CACHE:
+@lru_cache(maxsize=None)
+def _other_eqpt():
+    """another shipped library that defines amplifiers of the same names with other characteristics"""
+    return json.loads((TD / 'eqpt_config.json').read_text())
+
+
+_BASE_EQ = {}
+
+
+def equipment_base(library='example-data'):
+    """the parsed library (example-data/eqpt_config.json; 'tests-data': tests/data/eqpt_config.json; 'variant': the
+    example-data library with a noisier std_low_gain - same amplifier names, other noise figures) with the automatic output-VOA optimisation enabled on two amplifier models; parsed once per process
+    (call it before forking workers)"""
+    if library not in _BASE_EQ:
         import gnpy.tools.json_io as jio
-        d = copy.deepcopy(_base_eqpt())
-        d['Span'][0].update(padding=s['padding'] / UDB, EOL=s['eol'] / UDB, max_length=s['maxLen'] / 1000,
-                            length_units='km', power_mode=bool(s['powerMode']), con_in=s['conIn'] / UDB,
-                            con_out=s['conOut'] / UDB)
-        if band:                                               # SI / design band in MHz
-            d['SI'][0].update(f_min=band[0] * 1e6, f_max=band[1] * 1e6)
+        d = copy.deepcopy(_other_eqpt() if library == 'tests-data' else _base_eqpt())
         for a in d['Edfa']:                                    # exercise the automatic output-VOA optimisation
             if a['type_variety'] in ('std_low_gain', 'std_medium_gain'):
                 a['out_voa_auto'] = True
-        _EQ_CACHE[key] = jio._equipment_from_json(d, jio.DEFAULT_EXTRA_CONFIG)
+            if library == 'variant' and a['type_variety'] == 'std_low_gain':
+                # a library with the same amplifier names in which one model is much noisier (another vendor's data)
+                a['nf_min'], a['nf_max'] = a['nf_min'] + 4, a['nf_max'] + 4
+        _BASE_EQ[library] = jio._equipment_from_json(d, jio.DEFAULT_EXTRA_CONFIG)
+    return _BASE_EQ[library]
+
+
+def equipment_for(s, library='example-data'):
+    """Span / SI settings of a case -> equipment library: a copy of equipment_base(library) whose Span and SI entries
+    carry the case's values (what loading the modified eqpt_config JSON gives)"""
+    band = tuple(s.get('siBand') or ())
+    units = s.get('lenUnits', 'km')
+    key = (s['padding'], s['eol'], s['maxLen'], s['powerMode'], s['conIn'], s['conOut'], band, units, library)
+    if key not in _EQ_CACHE:
+        eq = copy.deepcopy(equipment_base(library))
+        sp = eq['Span']['default']
+        sp.padding, sp.EOL = s['padding'] / UDB, s['eol'] / UDB
+        sp.max_length, sp.length_units = (s['maxLen'] if units == 'm' else s['maxLen'] / 1000), units
+        sp.power_mode, sp.con_in, sp.con_out = bool(s['powerMode']), s['conIn'] / UDB, s['conOut'] / UDB
+        if band:                                               # SI / design band in MHz
+            eq['SI']['default'].f_min, eq['SI']['default'].f_max = band[0] * 1e6, band[1] * 1e6
+        _EQ_CACHE[key] = eq
     return _EQ_CACHE[key]
 
 
@@ -100,7 +135,7 @@ def settings_of(equipment, unit=100.0):
     sp = equipment['Span']['default']
     return dict(padding=udb(sp.padding), eol=udb(sp.EOL), conIn=udb(sp.con_in), conOut=udb(sp.con_out),
                 maxLen=int(round(convert_length(sp.max_length, sp.length_units) * unit)),
-                powerMode=bool(sp.power_mode), lib=sorted(equipment['Edfa'].keys()))
+                powerMode=bool(sp.power_mode), lib=sorted(equipment['Edfa'].keys()), insert=True)
 
 
 # ------------------------------------------------------------------------------------------------- network projection
@@ -113,6 +148,15 @@ def _sub(amp):
 
 
 def project_network(net, input_names=None, unit=100.0):
+    """see _project_network; a failure of the projection itself is a machinery error, never a finding"""
+    from harness.core import Machinery
+    try:
+        return _project_network(net, input_names, unit)
+    except Exception as e:                                       # noqa
+        raise Machinery(f'projection failed: {type(e).__name__}: {e}') from e
+
+
+def _project_network(net, input_names=None, unit=100.0):
     """networkx DiGraph of gnpy elements -> list of element records of spec/DesignGraph.tla (1-based succ/pred).
     `origin` of a fibre whose uid is not an input uid but reads <input uid>_(i/k) is that input uid (encoding only:
     whether the spans really are a correct split is decided by SplitIsEqualAndConservative)."""
@@ -125,7 +169,7 @@ def project_network(net, input_names=None, unit=100.0):
         t = type(n).__name__
         r = dict(name=n.uid, type=t, succ=[idx[id(x)] for x in net.successors(n)],
                  pred=[idx[id(x)] for x in net.predecessors(n)], len=0, coef=NONE, variety='', conIn=NONE, conOut=NONE,
-                 attIn=NONE, loss=0, sub=[], origin='', coefTab=[], opt='')
+                 attIn=NONE, loss=0, sub=[], origin='', coefTab=[], opt='', phys=[])
         if isinstance(n, E.Fiber):
             p = n.params
             r['len'] = int(round(p.length * unit))
@@ -139,6 +183,12 @@ def project_network(net, input_names=None, unit=100.0):
             r['conIn'], r['conOut'], r['attIn'] = udb(p.con_in), udb(p.con_out), udb(p.att_in)
             if p.con_in is not None and p.con_out is not None:
                 r['loss'] = udb(float(n.loss))
+            disp, fref = np.atleast_1d(p.dispersion), np.atleast_1d(p.f_dispersion_ref)
+            r['phys'] = [int(round(float(p.pmd_coef) * 1e18)), int(bool(getattr(p, 'pmd_coef_defined', False))),
+                         int(disp.size), int(fref.size)] + [int(round(float(v) * 1e9)) for v in disp] + \
+                        [int(round(float(v) / 1e6)) for v in fref] + \
+                        [int(round(float(p.gamma) * 1e9)), int(round(float(p._effective_area) * 1e15)),
+                         len(p.lumped_losses)]
             if input_names is not None and n.uid not in input_names:
                 m = _SPLIT.match(n.uid)
                 if m and m.group(1) in input_names:
@@ -246,7 +296,7 @@ def design(doc, equipment, **kw):
 
 def n_procs():
     import os
-    return max(1, min(8, int(os.environ.get('VERIF_TLC_WORKERS', '16')) // 2))
+    return max(2, min(8, int(os.environ.get('VERIF_TLC_WORKERS', '16'))))      # python workers are lighter than TLC's
 
 
 def parallel_map(fn, items, procs=None):
